@@ -31,6 +31,7 @@ class Spec:
         self.last = Fr(0)          # time of the last observed activity
         self.halves = 0
         self.wraps = 0
+        self.deferred_insts = set()
         self.batch = []            # AppClock: entries taken out at the current tick, not yet awakened
         self.flush_at = None
         self.paused = None         # a task stopped in the middle of its step (atom `!`)
@@ -79,6 +80,14 @@ class Spec:
     def do_op(self, k, w, logical, now):
         """a clock call; returns exception name or None"""
         c = self.clock[k]
+        if w[0] == 'd':
+            # defer(f, delta, clock): f runs exactly once, whatever it returns
+            if c['stopped']:
+                return 'ClockNotRunning'
+            inst = self.callee(int(w[2]))
+            self.deferred_insts.add(inst)
+            self.insert(k, (now if k == 'a' else self.s2b(k, logical)) + F(w[1]), inst, now)
+            return None
         if w[0] in ('s', 'q', 'T', 'E') and c['stopped']:
             return 'ClockNotRunning'
         if w[0] == 's':
@@ -121,6 +130,8 @@ class Spec:
         """what an awake leaves behind: its calls (up to a `!` stop), then its result"""
         c = self.clock[k]
         raised = False
+        if inst in self.deferred_insts and res != 'x':
+            res = 'd'                     # defer's wrapper returns None: never re-scheduled
         for j, a in enumerate(ops):
             p = a.split(':')
             if p[0] == '!':
@@ -514,7 +525,7 @@ class Check(common.Check):
             elif r < 0.90 and tempos:
                 lines.append(f'op m {G.choice(tempos)} stop')
             elif r < 0.915:
-                lines.append('cmdp')
+                lines.append(G.choice(['cmdp', 'cmdp h']))
             elif r < 0.95 and 'a' in allc:
                 lines.append(G.choice([f'half {fr(G.choice([Fr(0), Fr(1,8), Fr(1,2)]))} {G.randrange(nt)}', 'fin', 'cont a']))
             else:
@@ -577,7 +588,7 @@ class Check(common.Check):
             lines.append(f'op {G.choice("mo")} {k} q {fr(d)} {t}')
         if G.random() < 0.6:
             lines.append(f'run {fr(G.choice([Fr(1, 8), Fr(1, 4), Fr(1, 2)]))} {fr(G.choice([Fr(0), Fr(1, 64)]))}')
-        lines.append('cmdp')
+        lines.append(G.choice(['cmdp', 'cmdp h']))
         lines.append(G.choice([f'run 3 0', f'run 1 1/64', 'wake t0 n', 'wake t1 n']))
         for k in ['s', 'a', 't0', 't1']:
             if G.random() < 0.7:
@@ -617,6 +628,20 @@ class Check(common.Check):
             lines.append(f'op m {kk} q {fr(G.choice([Fr(1, 8), Fr(1, 2)]))} 2')
         lines += [f'run 1/4 {fr(G.choice([Fr(0), Fr(1, 64)]))}', 'dump', f'op m {k} q 0 0', f'op m {k} q 0 0',
                   f'run 3 0', 'fin', 'cont a', f'run {BIG} 0', 'dump']
+        return lines
+
+    def gen_defer(self, G):
+        """defer(callable, delta, clock) with callables returning numbers / None / other: exactly one call each"""
+        res = ['r:1/8', 'r:0', 'ri:1', 'rf:1/4', 'd', 'n', 'bt', 'x', 'r:1/2 | r:1/2 | r:1/2']
+        lines = [f'task {t} P ' + G.choice(res) for t in range(4)] + ['new 0 ' + fr(G.choice([Fr(1), Fr(2)]))]
+        for _ in range(G.randint(3, 8)):
+            k = G.choice(['s', 'a', 'a', 't0'])
+            lines.append(f'op {G.choice("mo")} {k} d {fr(G.choice([Fr(0), Fr(1, 8), Fr(1, 2), Fr(1)]))} {G.randrange(4)}')
+            if G.random() < 0.3:
+                lines.append(f'op m {k} q {fr(G.choice([Fr(1, 4), Fr(1)]))} {G.randrange(4)}')
+            if G.random() < 0.3:
+                lines.append(f'run {fr(G.choice([Fr(1, 8), Fr(1, 2)]))} {fr(G.choice([Fr(0), Fr(1, 64)]))}')
+        lines += ['dump', f'run 4 {fr(G.choice([Fr(0), Fr(1, 64)]))}', 'fin', 'cont a', f'run {BIG} 0', 'dump']
         return lines
 
     def gen_slow_tempo(self, G):
@@ -665,7 +690,7 @@ class Check(common.Check):
             out.append(self.gen_tempo_batch(rng) if r < 0.08 else self.gen_midstep(rng) if r < 0.18
                        else self.gen_cmdperiod(rng) if r < 0.24 else self.gen_etempo(rng) if r < 0.30
                        else self.gen_same_callable(rng) if r < 0.36 else self.gen_slow_tempo(rng) if r < 0.41
-                       else self.gen_readd_storm(rng) if r < 0.44
+                       else self.gen_readd_storm(rng) if r < 0.44 else self.gen_defer(rng) if r < 0.49
                        else self.gen_one(rng))
         return out
 
@@ -819,7 +844,7 @@ class Check(common.Check):
             tasks, clocks = set(), set(re.findall(r'\bt(\d+)\b', text))
             for ln in cmds:
                 w = ln.split()
-                if w[0] == 'op' and len(w) >= 6 and w[3] in ('s', 'q'):
+                if w[0] == 'op' and len(w) >= 6 and w[3] in ('s', 'q', 'd'):
                     tasks.add(w[5])
                 elif w[0] == 'half':
                     tasks.add(w[2])
